@@ -1,22 +1,24 @@
 package main
 
 import (
-	"runtime"
 	"fmt"
 	"os"
+	"runtime"
 	"sort"
 	"strings"
 
+	"luahelper-lsp/langserver/check/common"
+	"luahelper-lsp/langserver/check/compiler/lexer"
 	"verifharness/lib"
 )
 
 func init() { register("C19", runC19) }
 
 type outlineReq struct {
-	qname                          string
-	cls                            string
-	locs                           []lib.Range
-	colon, fn, byAssign, shadowed  bool
+	qname                         string
+	cls                           string
+	locs                          []lib.Range
+	colon, fn, byAssign, shadowed bool
 }
 
 func parseOutlineReqs(ans string) ([]outlineReq, error) {
@@ -167,6 +169,35 @@ func runC19(res *lib.Result, tier string, seed int64, args []string) error {
 	}
 	defer drv.Close()
 	root := lib.NewRng(uint64(seed))
+	// unit: FuncSymbolLoc (the range of a function symbol) on random pairs of Locs vs the model
+	for k := 0; k < 1500; k++ {
+		r := root.Fork(uint64(7700000 + k))
+		mk := func() lexer.Location {
+			sl := 1 + r.Intn(4)
+			el := sl + r.Intn(3)
+			sc := r.Intn(12)
+			ec := r.Intn(12)
+			if el == sl {
+				ec = sc + r.Intn(6)
+			}
+			if r.Chance(1, 12) {
+				return lexer.Location{}
+			}
+			return lexer.Location{StartLine: sl, StartColumn: sc, EndLine: el, EndColumn: ec}
+		}
+		v, f := mk(), mk()
+		got := common.FuncSymbolLoc(v, f)
+		line := fmt.Sprintf("funcsym %d:%d:%d:%d %d:%d:%d:%d", v.StartLine, v.StartColumn, v.EndLine, v.EndColumn, f.StartLine, f.StartColumn, f.EndLine, f.EndColumn)
+		ans, err := drv.Ask(line)
+		if err != nil {
+			return err
+		}
+		res.Evaluations++
+		res.Dist("unit.funcsym")
+		if g := fmt.Sprintf("%d:%d:%d:%d", got.StartLine, got.StartColumn, got.EndLine, got.EndColumn); g != ans {
+			res.AddViolation("impl-vs-model", fmt.Sprintf("FuncSymbolLoc = %s, model %s", g, ans), line, false)
+		}
+	}
 	for wi := 0; wi < nWs; wi++ {
 		r := root.Fork(uint64(wi))
 		files := map[string]string{}
@@ -175,7 +206,7 @@ func runC19(res *lib.Result, tier string, seed int64, args []string) error {
 			nf = 12 // > 200 symbols in the workspace
 		}
 		var blockFns [][3]string // file, qualified name, identifier: functions on block-local tables
-		many := wi%8 == 3 // more files than the symbol collector has workers (NumCPU+2): the refill path is used
+		many := wi%8 == 3        // more files than the symbol collector has workers (NumCPU+2): the refill path is used
 		if many {
 			nf = runtime.NumCPU() + 6 + r.Intn(8)
 		}
@@ -307,9 +338,6 @@ func runC19(res *lib.Result, tier string, seed int64, args []string) error {
 					case q.shadowed:
 						res.HitKnown("C19-K1", "a top-level local name declared more than once (or a member of such a table): the outline lists only the last declaration of that name", caseText)
 						res.Dist("hit.C19-K1")
-					case named && q.byAssign:
-						res.HitKnown("C19-K2", "a function-valued variable / member declared by assigning a function expression ('local f = function', 'g = function', 't.f = function', '{ f = function }'): its outline range is the function expression, which starts after the declaring identifier", caseText)
-						res.Dist("hit.C19-K2")
 					case !named && q.cls == "member" && strings.Contains(want, ".") && !strings.Contains("\n"+src, "\n"+strings.FieldsFunc(want, func(c rune) bool { return c == '.' || c == ':' })[0]+" = "):
 						res.HitKnown("C19-K3", "a function member added to a global table that is declared in ANOTHER file ('GT = {}' in a.lua, 'function GT.f() end' in b.lua) is missing from the outline of the file that declares the member (the members hang on the table's declaration)", caseText)
 						res.Dist("hit.C19-K3")
